@@ -163,10 +163,10 @@ var vServedHasCtx bool
 //verif:stub (*github.com/basecamp/kamal-proxy/internal/server.Service).ServeHTTP harness=HarnessRoute404
 func stubServiceServeRecord(s *Service, w http.ResponseWriter, r *http.Request) {
 	vServed = s
-	rc := RoutingContext(r)
-	vServedHasCtx = rc != nil
-	if rc != nil {
-		vServedPrefix = rc.MatchedPrefix
+	mp, has := vMatchedPrefix(r)
+	vServedHasCtx = has
+	if has {
+		vServedPrefix = mp
 	}
 }
 
